@@ -131,6 +131,31 @@ def slashMw (k : SlashCtor) (path qs reqURI : List Char) : Out :=
   else if k.isAdd then addSlash k.config.code path qs reqURI
   else removeSlash k.config.code path qs reqURI
 
+/-! ## the request URL
+
+What a `*url.URL` of a request can carry.  Several parts can be PRESENT BUT EMPTY or present
+without saying anything new: a target that ends in a bare `?` (`ForceQuery` with an empty
+`RawQuery`), a `RawPath` that only repeats `Path`, a fragment or a host (absolute-form target, or
+set by an earlier middleware).  The slash middlewares read `URL.Path` and `c.QueryString()`
+(= `URL.RawQuery`) and nothing else; the static handler reads `URL.Path` only.  A bare `?` is
+therefore not carried over into the target. -/
+
+structure URL where
+  path : List Char
+  rawPath : List Char := []
+  rawQuery : List Char := []
+  forceQuery : Bool := false
+  fragment : List Char := []
+  host : List Char := []
+deriving DecidableEq, Repr, Inhabited
+
+/-- `c.QueryString()` -/
+def URL.queryString (u : URL) : List Char := u.rawQuery
+
+/-- a slash middleware applied to a request with this URL -/
+def slashURL (k : SlashCtor) (u : URL) (reqURI : List Char) : Out :=
+  slashMw k u.path u.queryString reqURI
+
 /-! ## StaticDirectoryHandler -/
 
 def hexVal? (c : Char) : Option Nat :=
@@ -342,26 +367,32 @@ def pCtor : P SlashCtor := do
   | "D", false => pure (.removeWith ⟨skip, code⟩)
   | _, _ => failure
 
+def pURL : P URL := do
+  let p ← str; let rp ← str; let q ← str; let fq ← bool; let fr ← str; let h ← str
+  pure ⟨p, rp, q, fq, fr, h⟩
+
 def pReq : P Req := do
   let k ← tok
   match k with
   | "M" => do
-    let c ← pCtor; let p ← str; let q ← str; let u ← str
-    pure (.slash c p q u)
+    let c ← pCtor; let url ← pURL; let u ← str
+    pure (.slash c url.path url.queryString u)
   | "S" => do
     let d ← bool; let dirs ← list str; let files ← list str; let param ← str; let up ← str
     pure (.static d ⟨dirs, files⟩ param up)
   | "P" => do
-    let c ← pCtor; let p ← str; let q ← str; let u ← str
+    let c ← pCtor; let url ← pURL; let u ← str
+    let p := url.path; let q := url.queryString
     let d ← bool; let dirs ← list str; let files ← list str; let routed ← bool; let param ← str
     pure (.preStatic c p q u d ⟨dirs, files⟩ routed param)
   | _ => failure
 
 /-- lines:
-    `M (A|D) plain skip code path query requestURI` — a slash middleware (`plain`: the
+    `url = path rawPath rawQuery forceQuery fragment host`,
+    `M (A|D) plain skip code url requestURI` — a slash middleware (`plain`: the
     constructor without config; `skip`: the Skipper's answer),
     `S disableUnescape ndirs dirs… nfiles files… param urlPath` — a static route,
-    `P (A|D) plain skip code path query requestURI disableUnescape ndirs dirs… nfiles files… routed param`
+    `P (A|D) plain skip code url requestURI disableUnescape ndirs dirs… nfiles files… routed param`
     — slash middleware in front of a static route
       → `N path requestURI` | `R code location sameHost staysOnHost` | `E` | `404` | `F` -/
 def runLine (line : String) : String :=
